@@ -202,10 +202,34 @@ def build(shells, cls=None):
 
     cls = cls or GeneralizedContractionShell
     out = []
+    shared = {}
     for s in shells:
+        key = s.get("dup_key")
+        if key is not None and key in shared:
+            out.append(shared[key])  # the same shell OBJECT listed more than once (see add_dup)
+            continue
         out.append(cls(int(s["l"]), np.array(s["c"], dtype=float), np.array(s["k"], dtype=float),
                        np.array(s["e"], dtype=float), TYPES[s["t"]]))
+        if key is not None:
+            shared[key] = out[-1]
     return out
+
+
+def add_dup(rng, shells, classes):
+    """List one of the shells a second time AS THE SAME OBJECT (descriptors sharing a ``dup_key`` are built once): a
+    basis may legitimately repeat a shell object, and assembly code that keys blocks by the object or skips
+    ``a is b`` pairs goes wrong there while every basis of distinct objects stays right. With probability 1/2 all
+    shells get one coordinate type so that the all-spherical / all-Cartesian assembly paths are taken."""
+    shells = [dict(s) for s in shells]
+    if rng.random() < 0.5:
+        t = str(rng.choice(["c", "p"]))
+        for s in shells:
+            s["t"] = t
+    j = int(rng.integers(len(shells)))
+    shells[j]["dup_key"] = "d%d" % j
+    pos = int(rng.integers(len(shells) + 1))
+    shells.insert(pos, dict(shells[j]))
+    return shells, list(classes) + ["dup-object"]
 
 
 def rshells(shells, types=None):
@@ -297,3 +321,16 @@ def rand_transform(rng, n, kind=None):
     else:
         T = rng.normal(size=(n, n))
     return [[float(v) for v in row] for row in T], "T:" + kind
+
+
+def dup_variants(pid, seed, tier, cases, every, ok=None):
+    """copies of every ``every``-th small case with one shell listed twice as the same object (see add_dup)"""
+    out = []
+    for i, c in enumerate(cases):
+        if i % every == every // 2 and len(c["shells"]) <= 3 and (ok is None or ok(c)):
+            rng = rng_for(pid, seed, tier, "dup", i)
+            d = dict(c)
+            d["shells"], d["classes"] = add_dup(rng, c["shells"], c.get("classes", []))
+            d["cost"] = c.get("cost", 1) * 2
+            out.append(d)
+    return out
